@@ -91,7 +91,7 @@ contract('ResourceManager._record_resource_amount_update', props=['C15'], args={
 
 specfn('pool_unchanged', ['self'], 'all(use(self, n) == old(use(self, n)) and cap(self, n) == old(cap(self, n)) for n in refs())')
 
-contract('ResourceManager.reserve_resources', props=['C09'], args={'request': 'dict[str,real]'},
+contract('ResourceManager.reserve_resources', props=['C09'], args={'request': 'dict[str,real]'}, modular=True,
          result='ref:ReservedResources',
          requires={'initialised': 'self._env is not None and alive(self._env)',
                    'request_is_a_dict': 'request is not self._resources and alive(request)'},
@@ -279,7 +279,7 @@ contract('ResourceManager.initialize', props=['C09', 'C15'], args={'env': 'ref:E
 loop('ResourceManager.initialize', 1, 'for resource_name in self._resources.keys()',
      {'env_set': 'self._env is env'}, modifies=['$trace'], index='k')
 
-contract('ResourceManager.reserve_resources_with_callback', props=['C10'],
+contract('ResourceManager.reserve_resources_with_callback', props=['C10'], modular=True,
          args={'request': 'dict[str,real]', 'callback': 'clo'},
          requires={'initialised': 'self._env is not None and alive(self._env)',
                    'request_is_a_dict': 'alive(request) and request is not self._resources',
